@@ -192,7 +192,9 @@ def _bind(fs, net):
   from vsim import boot, simnet
   from fedjax.datasets import downloads
   downloads.os = _Os(fs)
-  downloads.open = lambda p, mode='r', *a, **k: fs.open(p, mode)
+  def _open(p, mode='r', buffering=-1, *a, **k):
+    return fs.open(p, mode, raw=(buffering == 0))
+  downloads.open = _open
   downloads.lzma = _Lzma(fs)
   downloads.time = boot.TIME_SHIM
   downloads.log = lambda *a, **k: None
